@@ -30,6 +30,11 @@ RULE = ("@given: stock = container with a non-enzyme solute, a liquid and 0-2 fu
 ASSUMPTIONS = ["concentration = solute amount / size of the whole mixture in the denominator unit",
                "enzyme solutes are not generated (unsupported by the library)",
                "targets within 1e-6 relative of a feasibility boundary are don't-care"]
+def shard_config(shard, tier):
+    """two of eight shards run under storage units whose prefixes differ from each other (documented settings)"""
+    return {6: {'volume_storage_unit': 'mL'}, 7: {'moles_storage_unit': 'nmol'}}.get(shard % 8)
+
+
 REQUIRED_CLASSES = {'quick': ['solvent:substance', 'solvent:container', 'outcome:returned', 'outcome:ValueError',
                               'qfam:L', 'qfam:g', 'qfam:mol'],
                     'thorough': ['solvent:substance', 'solvent:container', 'outcome:returned', 'outcome:ValueError',
@@ -134,7 +139,16 @@ def run_case(col, pp, cfg, case):
     names = set(sbase) | set(obase) | (set(vbase) if vbase else set())
     gsum = sum(ref.grain_base(n) / a for n, a in obase.items() if a > 0)
     svol = ref.size(sbase, 'L')
-    tol = 8 * gsum + 1e-8 + 4 * cfg.grain * cfg.vol_mult / max(svol, 1e-300)
+    ovol = ref.size(obase, 'L')
+    # the aliquots are measured out by volume, rounded to one grain of the volume storage unit: relative to the
+    # smallest volume handled (the new solution, or the part of it taken from the stock)
+    small = max(min(ovol, svol - ref.size(rbase, 'L') if svol > ref.size(rbase, 'L') else ovol), 1e-300)
+    if container_solvent:
+        # ... or the part drawn from the solvent container (a few nL of a dense solvent weigh as much as the rest)
+        vpart = ref.size(vbase, 'L') - ref.size(world.base(bench.view_container(res[1])), 'L')
+        if vpart > 0:
+            small = min(small, vpart)
+    tol = 8 * gsum + 1e-8 + 4 * cfg.grain * cfg.vol_mult / max(svol, 1e-300) + 4 * cfg.grain * cfg.vol_mult / small
     # (1) size and concentration of the new solution
     got_q = ref.size(obase, qfam)
     if abs(got_q - Q) > tol * Q:
@@ -230,6 +244,8 @@ def cases(draw, cfg):
     qfam = draw(st.sampled_from(['L', 'L', 'g', 'mol']))
     supply = ref.size(base, qfam) / max(f, 1e-9)
     frac = draw(st.floats(0.02, 0.95)) if draw(st.integers(0, 6)) else draw(st.floats(1.05, 1.6))
+    if draw(st.integers(0, 5)) == 0:
+        frac = 10 ** draw(st.floats(-6, -2))          # a request that is tiny compared with the stock
     q = render_q(supply * frac, qfam, draw(st.sampled_from(PREFIX_POOL)), draw(st.integers(0, 2)), 6)
     return {'subs': [s.to_json() for s in subs], 'stock': stock, 'solute': solute, 'solvent': solvent,
             'conc': conc.text, 'q': q.text}
